@@ -91,6 +91,23 @@ Definition extid_git_object (e : extid) : result bytes :=
   then Ok (from_headers (bs "extid") (extid_headers e) None)
   else Err ValueError.
 
+(* An int field as the validators accept it: a plain int or a bool (isinstance(True, int); True == 1, False == 0).
+   The model's x_version / m_visit hold its VALUE (what "%d" prints since c60369d).  Before, the lines were
+   written with str(), which prints a bool as a word: [extid_git_object_old]. *)
+Inductive int_input := IPlain (z : Z) | IBool (b : bool).
+Definition int_value (i : int_input) : Z :=
+  match i with IPlain z => z | IBool true => 1%Z | IBool false => 0%Z end.
+Definition str_int (i : int_input) : bytes :=
+  match i with IPlain z => dec_Z z | IBool true => bs "True" | IBool false => bs "False" end.
+Definition extid_headers_old (e : extid) (v : int_input) : list header :=
+  [(bs "extid_type", x_type e)]
+  ++ (if Z.eqb (int_value v) 0 then [] else [(bs "extid_version", str_int v)])
+  ++ [(bs "extid", x_extid e); (bs "target", print_core (x_target e))]
+  ++ match x_payload_type e with Some t => [(bs "payload_type", t)] | None => [] end
+  ++ match x_payload e with Some p => [(bs "payload", p)] | None => [] end.
+Definition extid_manifest_old (e : extid) (v : int_input) : bytes :=
+  from_headers (bs "extid") (extid_headers_old e v) None.
+
 (* ExtID.check_payload_type / check_payload *)
 Definition extid_valid (e : extid) : bool :=
   match x_payload_type e, x_payload e with
@@ -211,6 +228,30 @@ Definition set_date (m : emd) (d : datetime) : emd :=
 Definition mk_emd (m : emd) : result emd :=
   let m' := set_date m (normalize_date (m_date m)) in
   if emd_valid m' then Ok m' else Err ValueError.
+
+(* What a caller can pass as discovery_date (a datetime.datetime instance):
+   - [DAware d]      : utcoffset() gives an offset: the instant and the offset;
+   - [DNaive w]      : tzinfo is None; w = the wall-clock fields as microseconds since 1970-01-01T00:00 (no zone);
+   - [DOffsetless w] : tzinfo is set but its utcoffset() returns None for this date - naive by datetime's own
+                       definition, although `tzinfo is None` is false.
+   normalize_discovery_date rejects the last two with ValueError (since 106558f also the third). *)
+Inductive date_input := DAware (d : datetime) | DNaive (wall_us : Z) | DOffsetless (wall_us : Z).
+
+Definition mk_emd_in (m : emd) (d : date_input) : result emd :=
+  match d with
+  | DAware d => mk_emd (set_date m d)
+  | DNaive _ | DOffsetless _ => Err ValueError
+  end.
+
+(* The constructor as it was before 106558f: only `tzinfo is None` was tested; for an offset-less tzinfo
+   astimezone(utc) reads the wall-clock fields in the LOCAL zone of the process.  [local w] = the UTC offset
+   (microseconds) the machine's zone gives to the wall-clock time w: an input the property must not have. *)
+Definition mk_emd_in_old (local : Z -> Z) (m : emd) (d : date_input) : result emd :=
+  match d with
+  | DAware d => mk_emd (set_date m d)
+  | DNaive _ => Err ValueError
+  | DOffsetless w => mk_emd (set_date m {| dt_us := (w - local w)%Z; dt_off := local w |})
+  end.
 
 Definition mk_extid (e : extid) : result extid :=
   if extid_valid e then match extid_git_object e with Ok _ => Ok e | Err x => Err x end else Err ValueError.
